@@ -490,7 +490,18 @@ func filterGetdigit(in *Value, param *Value) (*Value, *Error) {
 	if i <= 0 || i > l {
 		return in, nil
 	}
-	return AsValue(in.String()[l-i] - 48), nil
+	s := in.String()
+	for idx := 0; idx < l; idx++ {
+		if (s[idx] < '0' || s[idx] > '9') && !(idx == 0 && s[idx] == '-' && l > 1) {
+			// The input is not a whole number: like an invalid argument,
+			// hand it back instead of a byte code.
+			return in, nil
+		}
+	}
+	if s[l-i] == '-' {
+		return in, nil
+	}
+	return AsValue(s[l-i] - 48), nil
 }
 
 const filterIRIChars = "/#%[]=:;$&()+,!?*@'~"
